@@ -1,4 +1,5 @@
-"""E14 rule: a cache must be invisible (M1 cached objects are not modified, M3 no shared mutable default).
+"""E14 rule: a cache must be invisible (M1 cached objects are not modified, M2 the key covers what the value depends on, M3 no
+shared mutable default).
 
 The canonical form reads the program as if every lookup in a memo cell missed (sa/memo.py, step M).  That reading is only right if
 the obligations below hold, so every property whose code can reach a memo cell carries them.  The rule works on the raw syntax
@@ -11,7 +12,7 @@ _LOAD = ('yatiml.loader:', 'yatiml.constructors:', 'yatiml.recognizer:')
 _DUMP = ('yatiml.dumper:', 'yatiml.representers:')
 SCOPE = {
     'C01': _LOAD, 'C02': _LOAD, 'C03': ('yatiml.recognizer:', 'yatiml.loader:'), 'C04': _LOAD, 'C05': _LOAD + _DUMP, 'C06': _DUMP,
-    'C07': ('yatiml.dumper:',), 'C08': _LOAD + ('yatiml.helpers:UnknownNode.', 'yatiml.irecognizer:'), 'C09': (),
+    'C07': ('yatiml.dumper:',), 'C08': _LOAD + ('yatiml.helpers:UnknownNode.', 'yatiml.irecognizer:'), 'C09': ('yatiml.loader:Loader.',),
     'C10': ('savorize', 'sweeten'), 'C11': ('yatiml',), 'C12': ('yatiml.loader:load_function', 'yatiml.dumper:dump'),
     'C13': _LOAD, 'C14': ('yatiml.helpers:Node.',), 'C15': ('yatiml.helpers:Node.',), 'C16': ('yatiml.helpers:UnknownNode.',),
     'C17': ('yatiml.irecognizer:', 'yatiml.recognizer:', 'yatiml.exceptions:'), 'C18': _LOAD,
@@ -30,6 +31,12 @@ def use(cls):
 def collect(x, acc=[]):
     acc.append(x)
     return acc
+_labels = dict()
+def label(cls, style):
+    key = '%s.%s' % (cls.__module__, cls.__name__)
+    if key not in _labels:
+        _labels[key] = describe(cls, style)
+    return _labels[key]
 '''}
 _CONTROL_GOOD = {'yatiml.ctl': '''
 _cache = dict()
@@ -46,6 +53,12 @@ def collect(x, acc=None):
         acc = []
     acc.append(x)
     return acc
+_labels = dict()
+def label(cls, style):
+    key = (cls, style)
+    if key not in _labels:
+        _labels[key] = describe(cls, style)
+    return _labels[key]
 '''}
 
 
@@ -56,15 +69,17 @@ def _in_scope(prop: str, q: str) -> bool:
 
 def memo_sound(ctx, rid: str):
     r = ctx.rule(rid, 'caches are invisible: values that live in a memo cell (dict / lazily filled attribute / lru_cache) are '
-                      'never modified by the code they are handed to, and no mutable parameter default is modified or handed out', floor=2)
+                      'never modified by the code they are handed to, the key of a cell contains every input its value depends on, and no '
+                      'mutable parameter default is modified or handed out', floor=2)
     # positive and negative control: the rule expects zero findings on the pinned tree, which has no cache at all
     bad = MemoAnalysis(_CONTROL_BAD)
     good = MemoAnalysis(_CONTROL_GOOD)
     kinds = sorted(v.rule for v in bad.violations)
-    if kinds != ['M1', 'M3'] or good.violations or len(bad.cells) != 1 or len(good.cells) != 1:
+    if kinds != ['M1', 'M2', 'M3'] or good.violations or len(bad.cells) != 2 or len(good.cells) != 2:
         from ..model import AnalysisError
         raise AnalysisError('%s: the memo analysis does not decide its own controls (%s / %s)' % (rid, kinds, [v.rule for v in good.violations]))
-    r.ok('control: a cached list that a caller strips in place, and a shared default list, are reported')
+    r.ok('control: a cached list that a caller strips in place, a shared default list, and a cache keyed by a name derived from '
+         'the class while the value also depends on a second argument, are reported')
     r.ok('control: the same code with a copy handed out and a None default is not')
     ana = getattr(ctx.P, 'memo', None)
     if ana is None:
